@@ -1,5 +1,5 @@
 from .. import facts
-from ..rules import sampling, filt, tables, status, factors, codec, geometry
+from ..rules import sampling, filt, tables, status, factors, codec, geometry, opacity
 
 
 def run(ck):
@@ -36,3 +36,4 @@ def run(ck):
     filt.r13_phase_follows_the_pixel(ck, P, 'C02-R26')           # the C fast fetcher against the general one
     factors.r27_opacity_test_on_unpacked_pixel(ck, P)
     geometry.r_wide_division_numerator(ck, P)        # the scaled fast paths' padding bounds against the general path
+    opacity.r6_outside_is_transparent(ck, P, 'C02-R30')      # the C fast fetchers against the general ones: a tap outside a NONE image is transparent in both
